@@ -222,13 +222,17 @@ structure InvA (w : Workload) (s : State) : Prop where
   chain_word : ∀ l, s.word = .list l → s.chain = l
   walk_ne : ∀ l d st, s.fpc = .walk l d st → l ≠ [] ∧ (d = true → l.tail = []) ∧ (st ≠ .begin → canFire l.tail d)
   walk_kind : ∀ c rest d st, s.fpc = .walk (c :: rest) d st →
-    (st = .incd → c.kind = .exec) ∧ (∀ n, st = .refd n → c.kind = .target ∨ c.kind = .retire) ∧ (st = .post → c.kind = .target)
+    (st = .incd → c.kind = .exec) ∧ (∀ n, st = .refd n → c.kind = .target) ∧ (st = .post → c.kind = .target)
   dec_le : ∀ n, s.fpc = .dec n → n ≤ 3
   run_shape : ∀ t c st, (s.obs t).pc = .run c st →
-    s.fpc ≠ .start ∧ c.kind ≠ .event ∧ st ≠ .post ∧ (st = .incd → c.kind = .exec) ∧ (∀ n, st = .refd n → c.kind = .retire)
+    s.fpc ≠ .start ∧ c.kind ≠ .event ∧ st ≠ .post ∧ (st = .incd → c.kind = .exec) ∧ (∀ n, st ≠ .refd n)
   got_after : ∀ t n, (s.obs t).pc = .gotRef n → s.fpc ≠ .start
   rep_res : ∀ t, (s.obs t).pc = .rep .result → s.fpc ≠ .start
   jobs_after : ∀ c, c ∈ s.jobs ∨ c ∈ s.jobsRun → s.fpc ≠ .start
+  /-- a combinator callback is entered, and retires, only after the exchange -/
+  rets_after : ∀ c, c ∈ s.rets → s.fpc ≠ .start
+  retsLd_after : ∀ x ∈ s.retsLd, s.fpc ≠ .start
+  retired_val : ∀ x ∈ s.retired, x.2.1 = some w.prod.res
   fired_after : ∀ x ∈ s.fired, s.fpc ≠ .start
   fired_val : ∀ x ∈ s.fired, x.2 = some w.prod.res
   got_val : ∀ x ∈ s.got, x.2.1 = some w.prod.res
@@ -245,8 +249,8 @@ theorem invA_init (w : Workload) : InvA w (init w) := by
 
 /-- unfold the step effects, but keep `advance`, `wordList`, `walkList`, `heldCb`, `promRefs` folded -/
 macro "sh_unfold'" : tactic =>
-  `(tactic| simp only [doXchg, doFFire, doFForward, doFRetire, failPath, reload, doLoad, doCasOk, doOInvoke,
-      doOIncRef, doOSubmit, doORetire, doGetc, doGot, doReady, doTouch, doCopy, doDrop, doJInvoke, doJDec, decCount, nextOp,
+  `(tactic| simp only [doXchg, doFFire, doFForward, doFEnter, failPath, reload, doLoad, doCasOk, doOInvoke,
+      doOIncRef, doOSubmit, doOEnter, doRRefLoad, doRRetire, doGetc, doGot, doReady, doTouch, doCopy, doDrop, doJInvoke, doJDec, decCount, nextOp,
       canFire, upd_apply, firedIds, loadOk, wordList_list, wordList_result, walkList_walk, walkList_start, walkList_dec,
       advance_nil, advance_cons, walkList_advance, walkList_xchg, promRefs_advance, promRefs_xchg, promRefs_start, promRefs_walk, promRefs_dec, heldCb_att, heldCb_run, heldCb_idle, heldCb_evt, heldCb_rep, heldCb_touching, heldCb_gotRef,
       List.map_append, List.map_cons, List.map_nil,
@@ -254,8 +258,8 @@ macro "sh_unfold'" : tactic =>
 
 /-- unfold the step effects -/
 macro "sh_unfold" : tactic =>
-  `(tactic| simp only [doXchg, doFFire, doFForward, doFRetire, failPath, reload, doLoad, doCasOk, doOInvoke,
-      doOIncRef, doOSubmit, doORetire, doGetc, doGot, doReady, doTouch, doCopy, doDrop, doJInvoke, doJDec, decCount, nextOp,
+  `(tactic| simp only [doXchg, doFFire, doFForward, doFEnter, failPath, reload, doLoad, doCasOk, doOInvoke,
+      doOIncRef, doOSubmit, doOEnter, doRRefLoad, doRRetire, doGetc, doGot, doReady, doTouch, doCopy, doDrop, doJInvoke, doJDec, decCount, nextOp,
       advance, canFire, upd_apply, firedIds, loadOk,
       ↓reduceIte, reduceCtorEq, ite_true, ite_false, if_true, if_false] at *)
 
@@ -264,10 +268,11 @@ macro "invA_auto" : tactic => `(tactic| (constructor <;> sh_unfold <;> grind))
 /-- splits the preservation proofs over several files (by label) so that they compile in parallel -/
 def grpOf : Label → Nat
   | .fXchg _ => 0 | .fDec _ => 0 | .fInvoke .. => 0 | .fSet _ => 0 | .fIncRef _ => 0 | .fSubmit _ => 0
-  | .fRefLoad _ => 1 | .fForward .. => 1 | .fRetire .. => 1 | .jInvoke .. => 1 | .jDec .. => 1
+  | .fRefLoad _ => 1 | .fForward .. => 1 | .fEnter .. => 1 | .jInvoke .. => 1 | .jDec .. => 1 | .rRefLoad .. => 1
+  | .rRetire .. => 1
   | .oLoad .. => 2 | .oCasOk _ => 2
   | .oCasFail .. => 3 | .oCasSpur .. => 3 | .oInvoke .. => 3 | .oIncRef .. => 3 | .oSubmit .. => 3
-  | .oForward .. => 4 | .oRefLoad .. => 4 | .oRetire .. => 4 | .oWaited _ => 4 | .oGetc .. => 4 | .oGetRef .. => 4
+  | .oForward .. => 4 | .oEnter .. => 4 | .oWaited _ => 4 | .oGetc .. => 4 | .oGetRef .. => 4
   | .oGot .. => 4
   | .oRdLoad .. => 5 | .oReady .. => 5 | .oTouch .. => 5 | .oCopy .. => 5 | .oDrop .. => 5
 
